@@ -140,7 +140,8 @@ def gen_views(rng):
 
 def wide_pair(spec):
     """all-distinct Y against an X with kx values: one stratum holds ~n/kx classes.  Closed form (no model run needed, the Lean
-    model is quadratic): Y determines X, so the plug-in MI is H(X); for kx = 1 it is 0 (the property's own clause)."""
+    model is quadratic): Y determines X, so the plug-in MI is H(X) (theorem `MI.plugin_alldistinct_left`, Props/C01.lean); for kx = 1
+    it is 0 (the property's own clause)."""
     import random
     r = random.Random(f'wide:{spec["seed"]}')
     n, kx = spec['n'], spec['kx']
